@@ -52,7 +52,7 @@ fn main() {
     ctx.run_slice(Slice::new(format!("structured-gluing[{} pairs, up to {} nodes]", gp.len(), gp.iter().map(|p| p.1.nodes.len() + p.2.nodes.len()).max().unwrap_or(0)), gp.len() as u64, |i, loc| check_pair::<B>(&gp[i as usize].1, &gp[i as usize].2, loc)).heavy());
     // large operands (sizes 33 .. 129): every ordered pair of the shape families (composable or not)
     let sizes: Vec<usize> = if quick { vec![33, 65] } else { vec![33, 64, 65, 129] };
-    let big: Vec<_> = ohmc::props::structured::shapes_at(&sizes, false).into_iter().map(|x| x.1).collect();
+    let big: Vec<_> = ohmc::props::structured::shapes_at_labelled(&sizes, false).into_iter().map(|x| x.1).collect();
     let nb = big.len() as u64;
     ctx.run_slice(Slice::new(format!("structured-pairs-large[sizes {:?}: {}^2]", sizes, nb), nb * nb, |i, loc| check_pair::<B>(&big[(i / nb) as usize], &big[(i % nb) as usize], loc)));
     let meta = Meta {
